@@ -55,6 +55,22 @@ CHECKS = {
              text='Exploration: seeded conforming populations (complex instances, strings containing # ( ; , forward references, sparse ids) are indexed and loaded by lazyInstMgr in forward, '
                   'reverse and shuffled double orders; ids, keywords, fwd/rev tables, transitive dependencies and every loaded instance are compared with the eager reader and the model.',
              ref='DESIGN.md section 2 C10', note='open findings restrict the randomized space to acyclic populations, schemas without INVERSE, and comment-free single-line text'),
+ 'C04': dict(tech='classified fault injection into generated EXPRESS + cross-tool verdict monitor (exit status, diagnostics, artefacts) over check-express, exppp, exp2cxx, exp2python',
+             level='fault_enumeration',
+             text='Fault enumeration: valid generated single/multi-schema files and 33 classes of single-fault mutants (invalid by construction) are run through the four real tools; '
+                  'valid input must be accepted by all, faulted input rejected by all with an ERROR and no success artefact, and exit status must be non-zero exactly when an ERROR was printed.',
+             ref='DESIGN.md section 2 C04'),
+ 'C12': dict(tech='differential monitor: output trees (path -> SHA-256) of the real generators under a matrix of perturbations (ASLR on/off, malloc-perturbing LD_PRELOAD shim, cwd, path spelling, environment, locale, earlier runs)',
+             text='Exploration: exp2cxx, exp2python, exppp and schema_scanner are run on shipped and generated schemas under 13 perturbed configurations each; every output tree must be byte-identical to the base run.',
+             ref='DESIGN.md section 2 C12', note='determinism is decided with respect to the factors varied (clock and host name are not varied)'),
+ 'C17': dict(tech='differential monitor: file lists predicted by the real schema_scanner vs. files actually written by the real exp2cxx',
+             text='Exploration: for shipped, unit and generated (single- and multi-schema) files the CMakeLists.txt written by schema_scanner is parsed and compared with the recursive listing of exp2cxx output.',
+             ref='DESIGN.md section 2 C17'),
+ 'C20': dict(tech='classified fault injection into generated EXPRESS + diagnostic-text monitor on check-express (attribution, quoted argument = injected lexeme, line numbers, -w/-i switch invariance)',
+             level='fault_enumeration',
+             text='Fault enumeration: 32 argument-carrying fault classes are injected into generated schemas; each diagnostic must be attributed to the input file, quote the injected lexeme and '
+                  'carry its line; every -w/-i combination must leave exit status and ERROR lines unchanged and toggle only the named warning class.',
+             ref='DESIGN.md section 2 C20'),
  'C01': dict(tech='reference-model monitor over recorded executions (independent Part 21 parser vs. files written by the real library) under ASan+UBSan',
              text='Exploration: seeded generated schemas x conforming populations x text variants are read and written by the real p21read/STEPfile '
                   'built with ASan+UBSan from the current tree; an independent Part 21 parser compares the written population value by value with the '
